@@ -25,7 +25,7 @@ inductive Variant | pinned | fixed
 /-- Behaviour of the tree under verification. `.pinned`: `filterEndpointsByProfile` stage 1 falls back
     to all endpoints when no endpoint is compatible with the provider profile. `.fixed`: the provider
     constraint has no fall-back (fixes/C11-provider-filter-no-fallback.patch). -/
-def active : Variant := .pinned
+def active : Variant := .fixed
 
 structure Ep where
   name : String
